@@ -932,6 +932,9 @@ func (fr *Frame) loopEntryObligations(li *loopInfo, conds []string, sts []*State
 		env := fr.invEnv(li, sts[k], ov)
 		env.pre = sts[k]
 		for i, inv := range li.spec.Invariants {
+			if !inv.Auto && !q.opts.checksTag(inv.Tag) {
+				continue // checked by the run of the property group that owns the clause; assumed here
+			}
 			t, err := env.evalBool(inv.Expr)
 			if err != nil {
 				q.note(fmt.Sprintf("%s loop %d invariant %d: %v", fnKey(fr.fn), li.ordinal, i, err))
@@ -984,6 +987,9 @@ func (fr *Frame) loopBackObligations(li *loopInfo) {
 		}
 		env := fr.invEnv(li, sts[k], ov)
 		for i, inv := range li.spec.Invariants {
+			if !inv.Auto && !q.opts.checksTag(inv.Tag) {
+				continue
+			}
 			t, err := env.evalBool(inv.Expr)
 			if err != nil {
 				q.note(fmt.Sprintf("%s loop %d invariant %d: %v", fnKey(fr.fn), li.ordinal, i, err))
